@@ -287,6 +287,19 @@ func thoroughExtras(c *Ctx, pc *propCheck, repo, verif string, seed int) {
 		}
 	}
 	_ = code
+	// whole-program cross-check for the properties whose rules depend on reachability
+	switch c.Prop {
+	case "C05", "C06", "C09", "C10", "C18":
+		inv, err := inventoryInSubprocess(repo)
+		if err != nil || inv.Error != "" {
+			c.undecided("inventory", fmt.Sprintf("whole-program inventory failed: %v %s", err, inv.Error))
+		} else {
+			c.Extra["whole_program"] = inv
+			if len(inv.MissingInQuick) > 0 {
+				c.undecided("inventory", fmt.Sprintf("the VTA call graph over the whole program reaches %d module functions that the quick tier's reachability misses (e.g. %s): reachability-dependent rules may have skipped them", len(inv.MissingInQuick), inv.MissingInQuick[0]))
+			}
+		}
+	}
 	if pc.thorough != nil {
 		pc.thorough(c)
 	}
